@@ -1,9 +1,167 @@
-(* C13 (stub, being built) *)
+(* C13 - Transpilation targets the device: native gates, coupled qubits, same unitary; what cannot be brought into this form
+   is refused.
+
+   Model: Model/Transpile.v `transpile d N c` = the statements of ModelProcessor.transpile in the ORDER the translator reads off
+   the source (Gen/Devices.v: per processor class the native_gates literal and what topology_map does; the pass list; the
+   qubit-count threshold of _decompose_multi_qubit_gates), over the C07 routing model (Model/Route.v, `Route.route Route.fixed`)
+   and the C03 decomposition model (Model/Resolve.v, `resolve`).  The theorems describe the tree WITH
+   fixes/C13-decompose-multi-qubit-gates (gates on more than two qubits are rewritten in native gates BEFORE the topology map);
+   on the tree as found the pass list is [PTopology; PResolve], `passes_fixed` does not compile, and
+   transpile_coupled_refuted_unfixed applies.
+
+   Quantification: every processor d of the device table (LinearSpinChain, CircularSpinChain, SCQubits, DispersiveCavityQED),
+   every width N (no bound), every circuit c of well-formed instances of the 20 resolvable kinds (C03 `wf_gate`: X Y Z SNOT H
+   SQRTNOT PHASEGATE RX RY RZ IDLE CNOT CSIGN SWAP ISWAP SQRTSWAP SQRTISWAP TOFFOLI FREDKIN GLOBALPHASE on pairwise different
+   qubits) inside the register, of any length; two-qubit gates at every distance, three-qubit gates on every triple; every
+   phase ring R and environment env (= every real value of every gate parameter).  N is the width of the circuit AND of the
+   processor (to_chain_structure routes on the circuit's width; known finding circuit-width-differs). *)
 From Coq Require Import List String Bool Arith.
-From QV Require Import Model.ResolveTypes Gen.Decompose Model.Resolve Model.TranspileTypes Gen.Devices Model.Transpile.
+From QV Require Import Found.Circ Model.ResolveTypes Gen.Decompose Gen.Gates Model.Resolve Proofs.ResolveSem Proofs.ResolveRefuted.
+From QV Require Import Model.TranspileTypes Gen.Devices Model.Transpile.
+From QV Require Import Proofs.TranspileShape Proofs.TranspileRoute Proofs.TranspileMain Proofs.TranspileSem Proofs.TranspileTop
+  Proofs.TranspileC06.
+From QV Require Model.SpinChain Proofs.SpinChainSem.
 Import ListNotations.
 Local Open Scope string_scope.
 
-Example stub_toffoli : exists out, transpile_unfixed dev_LinearSpinChain 3 [MG "TOFFOLI" [2] [0; 1] [] 0]%nat = Ok out /\
-  forallb (coupled_gate TopoLinear 3) out = false.
-Proof. eexists. split; [vm_compute; reflexivity|vm_compute; reflexivity]. Qed.
+(* every gate of the transpiled circuit is a native gate of the processor, GLOBALPHASE or IDLE *)
+Theorem transpile_native : forall d N c out, In d devices ->
+  Forall wf_gate c -> Forall (fun g => in_range N g = true) c -> transpile d N c = Ok out ->
+  Forall (fun o => native_gate d o = true) out.
+Proof.
+  intros d N c out Hd Hw Hr H.
+  assert (HP : Forall (fun g => noP (gname g)) c) by (apply Forall_forall; intros; exact I).
+  pose proof (transpile_structure noP d N c out Hd I Hw HP Hr H) as S.
+  eapply Forall_impl; [|exact S]. intros o [H1 _]. exact H1.
+Qed.
+Print Assumptions transpile_native.
+
+(* every gate of the transpiled circuit on two or more qubits is a two-qubit gate on a pair the hardware couples directly:
+   |a-b| = 1 on the open chain (LinearSpinChain, SCQubits), neighbours including (N-1, 0) on the ring, any two different
+   qubits of the register through the cavity; and no gate leaves the register *)
+Theorem transpile_coupled : forall d N c out, In d devices ->
+  Forall wf_gate c -> Forall (fun g => in_range N g = true) c -> transpile d N c = Ok out ->
+  Forall (fun o => coupled_gate (dtopo d) N o = true /\ in_range N o = true) out.
+Proof.
+  intros d N c out Hd Hw Hr H.
+  assert (HP : Forall (fun g => noP (gname g)) c) by (apply Forall_forall; intros; exact I).
+  pose proof (transpile_structure noP d N c out Hd I Hw HP Hr H) as S.
+  eapply Forall_impl; [|exact S]. intros o [_ [H2 [H3 _]]]. auto.
+Qed.
+Print Assumptions transpile_coupled.
+
+(* ... where "the hardware" is the hand-written table of the property text (Proofs/TranspileTop.v hardware_topology), which
+   the topology map every processor class calls is checked against *)
+Theorem transpile_coupled_hardware : forall d t N c out, In d devices -> hardware_topology (dname d) = Some t ->
+  Forall wf_gate c -> Forall (fun g => in_range N g = true) c -> transpile d N c = Ok out ->
+  Forall (fun o => coupled_gate t N o = true /\ in_range N o = true) out.
+Proof.
+  intros d t N c out Hd Ht. rewrite (hardware_is_dtopo d t Hd Ht). apply transpile_coupled. exact Hd.
+Qed.
+Print Assumptions transpile_coupled_hardware.
+Theorem devices_match_hardware : devices_match = true.
+Proof. exact devices_match_true. Qed.
+Print Assumptions devices_match_hardware.
+
+(* the transpiled circuit acts on every state of every register exactly as the input circuit - global phase included - for
+   all parameter values *)
+Theorem transpile_sem : forall d N c out, In d devices ->
+  Forall wf_gate c -> Forall (fun g => in_range N g = true) c -> transpile d N c = Ok out ->
+  forall (R : PhaseRing) (env : nat -> atoms R), sem (cden R env out) = sem (cden R env c).
+Proof. exact transpile_sem_proof. Qed.
+Print Assumptions transpile_sem.
+
+(* such a circuit is accepted, unless it holds a SQRTSWAP / SQRTISWAP that is not a native gate of the processor *)
+Theorem transpile_succeeds : forall d N c, In d devices ->
+  Forall wf_gate c -> Forall (fun g => in_range N g = true) c ->
+  (forall lst, dnative d = Some lst -> Forall (fun g => sq_name (cfg_of lst) (gname g)) c) ->
+  exists out, transpile d N c = Ok out.
+Proof. exact transpile_succeeds_proof. Qed.
+Print Assumptions transpile_succeeds.
+
+(* a gate without any decomposition rule that is not a native gate makes the whole call fail, wherever it stands *)
+Theorem transpile_refuses : forall d N c g, In d devices -> In g c ->
+  mem (gname g) pauli_names = false -> find_rule (gname g) = None ->
+  (forall lst, dnative d = Some lst -> mem (gname g) lst = false) ->
+  transpile d N c = Error.
+Proof. exact transpile_refuses_proof. Qed.
+Print Assumptions transpile_refuses.
+
+Theorem transpile_rejects_measurement : forall d N ops, In d devices -> In OpMeasure ops -> transpile_ops d N ops = Error.
+Proof. exact transpile_rejects_measurement_proof. Qed.
+Print Assumptions transpile_rejects_measurement.
+
+(* the device table: every processor has native gates, they are a valid choice of basis for resolve_gates (one two-qubit gate,
+   two rotations), and the parsed configuration names native gates only *)
+Theorem devices_valid : forallb dev_good devices = true.
+Proof. exact devs_good. Qed.
+Print Assumptions devices_valid.
+
+(* the generated obligations behind the coupling theorem: in the native configurations, every gate the decomposition of any
+   of the 20 kinds emits acts on pairwise different qubits OF ITS SOURCE GATE and is a one-control-one-target CNOT/CSIGN, a
+   two-target swap-type gate, a one-target rotation / idle gate or a global phase *)
+Theorem decomposition_stays_on_source_qubits : forallb (fun c => forallb (check_shape c) kinds) dev_cfgs = true.
+Proof. exact shapes_ok. Qed.
+Print Assumptions decomposition_stays_on_source_qubits.
+
+(* the shape of transpile the proofs are about: multi-qubit gates first, then the topology map, then resolve_gates *)
+Theorem transpile_order : transpile_passes = [PExpand; PTopology; PResolve] /\ expand_threshold = 2%nat.
+Proof. exact (conj passes_fixed threshold_two). Qed.
+Print Assumptions transpile_order.
+
+(* a local circuit identity can be read back from any injective placement (used to pass from the integer-labelled routing
+   development to the circuit itself) *)
+Theorem placement_reflects_semantics : forall (O : Ops) ts (c1 c2 : circ O), NoDup ts ->
+  local (length ts) c1 -> local (length ts) c2 -> sem (place ts c1) = sem (place ts c2) -> sem c1 = sem c2.
+Proof. exact place_reflect. Qed.
+Print Assumptions placement_reflects_semantics.
+
+(* ---- C06: hypothesis c13_transpile_native of Props/C06.v spinchain_reproduces_circuit --------------------------------- *)
+(* for ANY list of C06 gates with the names and targets of the transpiled circuit, on a chain of N qubits *)
+Theorem transpile_wf_circuit : forall d N c out (cc : SpinChain.cfg) (gs : list SpinChain.ngate), In d devices ->
+  Forall wf_gate c -> Forall (fun g => in_range N g = true) c -> transpile d N c = Ok out ->
+  SpinChain.c_n cc = N -> Forall2 same_gate out gs -> SpinChainSem.wf_circuit cc gs.
+Proof. exact transpile_wf_circuit_proof. Qed.
+Print Assumptions transpile_wf_circuit.
+
+(* ---- the code as found (topology map first, decomposition afterwards): the coupling clause fails ------------------------- *)
+(* TOFFOLI(controls 0,1 -> target 2): all gates native, but some two-qubit gate on a pair that is not coupled, on the open
+   3-chain, on the 4-ring and on the 3-qubit superconducting chain *)
+Theorem transpile_coupled_refuted_unfixed : exists c, Forall wf_gate c /\ Forall (fun g => in_range 3 g = true) c /\
+  unfixed_bad dev_LinearSpinChain 3 = true /\ unfixed_bad dev_CircularSpinChain 4 = true /\ unfixed_bad dev_SCQubits 3 = true /\
+  c = toffoli_012.
+Proof.
+  exists toffoli_012. split; [exact toffoli_wf|]. split; [repeat constructor|].
+  destruct unfixed_refuted as [A [B C]]. auto.
+Qed.
+Print Assumptions transpile_coupled_refuted_unfixed.
+
+(* ---- non-vacuity ----------------------------------------------------------------------------------------------------------- *)
+(* the 7-gate circuit of C03 (X, TOFFOLI on (4,2 -> 0), PHASEGATE, SWAP(2,0), FREDKIN, RY, GLOBALPHASE; 6 qubits) satisfies the
+   hypotheses on every processor of the table, is accepted by each, and the results are long *)
+Example hypotheses_inhabited : Forall wf_gate ex_circ /\ Forall (fun g => in_range 6 g = true) ex_circ /\
+  (forall d lst, In d devices -> dnative d = Some lst -> Forall (fun g => sq_name (cfg_of lst) (gname g)) ex_circ) /\
+  forallb (fun d => match transpile d 6 ex_circ with Ok out => Nat.ltb 100 (length out) | Error => false end) devices = true.
+Proof.
+  split; [exact ex_circ_wf|]. split; [repeat constructor|]. split.
+  - intros d lst _ _. repeat constructor; intros [E|E]; discriminate.
+  - vm_compute. reflexivity.
+Qed.
+(* on the TOFFOLI witness the repaired pipeline meets the device on all four processors *)
+Example fixed_meets_device : forallb (fun d => fixed_good d 4) devices = true.
+Proof. exact fixed_on_witness. Qed.
+(* refusals happen: T on the spin chain, CS after an RX on the superconducting processor, a measurement *)
+Example refusals_inhabited :
+  transpile dev_LinearSpinChain 3 [MG "T" [1] [] [] 0]%nat = Error /\ find_rule "T" = None /\
+  transpile dev_SCQubits 3 [MG "RX" [0] [] [Var 0] 0; MG "CS" [2] [0] [] 1]%nat = Error /\ find_rule "CS" = None /\
+  transpile dev_CircularSpinChain 4 [MG "BERKELEY" [0; 2] [] [] 0]%nat = Error /\
+  transpile dev_SCQubits 3 [MG "SQRTISWAP" [0; 2] [] [] 0]%nat = Error /\
+  transpile_ops dev_DispersiveCavityQED 2 [OpGate (MG "X" [0] [] [] 0); OpMeasure]%nat = Error.
+Proof. repeat split; vm_compute; reflexivity. Qed.
+(* the coupling predicate is not trivial: (0,2) is not coupled on the open 3-chain, is coupled on the 3-ring and in the cavity;
+   (0,3) closes the 4-ring *)
+Example coupled_distinguishes :
+  coupled TopoLinear 3 0 2 = false /\ coupled TopoCircular 3 0 2 = true /\ coupled TopoNone 3 0 2 = true /\
+  coupled TopoCircular 4 3 0 = true /\ coupled TopoCircular 4 0 2 = false /\ coupled TopoNone 3 1 1 = false /\
+  coupled TopoNone 3 0 3 = false.
+Proof. repeat split. Qed.
